@@ -50,6 +50,24 @@ def any_table(rng):
     return random_table(rng)
 
 
+def neighbour_table(rng, t):
+    """A table one small edit away from t: a key removed / added / changed, or '?' changed.  Used for walks through
+    related tables (stale-cache detection: the same atom kinds are looked up again under the next table)."""
+    t = dict(t)
+    keys = [k for k in t if k != "?"]
+    x = rng.random()
+    if x < 0.35 and keys:
+        del t[rng.choice(keys)]                       # removal only: the kind now falls back to '?'
+    elif x < 0.55:
+        t[key_of(rng.choice(ELS), rng.choice([0, 0, 1, -1, 2]))] = rng.choice(CAPS)
+    elif x < 0.8 and keys:
+        k = rng.choice(keys)
+        t[k] = max(0, t[k] + rng.choice([-3, -2, -1, 1, 2, 3]))
+    else:
+        t["?"] = rng.choice([0, 1, 2, 3, 4, 6, 8, 12])
+    return t
+
+
 def invalid_update(rng):
     """(value, reason) - an update the library must reject."""
     if rng.random() < 0.4:
